@@ -21,7 +21,7 @@ from . import splice
 
 ROOT = os.path.dirname(os.path.dirname(os.path.abspath(__file__)))
 REPO = os.environ.get('CV_REPO', '/repo')
-BUILD = os.path.join(ROOT, 'build')
+BUILD = os.environ.get('CV_BUILD') or os.path.join(ROOT, 'build')
 NCPU = os.cpu_count() or 4
 
 
@@ -51,6 +51,8 @@ def load_known(pid):
 
 
 def tier_ok(t, tier):
+    if t == 'never':      # kept for documentation (measured beyond the budget), never run
+        return False
     return t in (None, 'quick', 'both') or tier == 'thorough'
 
 
@@ -72,11 +74,11 @@ def run_kani_units(pid, units, tier, log, only_harness=None):
             anchor_bad[u['name']] = probs
     groups = {}
     for u in units:
-        key = (u['package'], tuple(u.get('features', [])), bool(u.get('no_default_features')), tuple(u.get('kani_args', [])))
+        key = (u['package'], tuple(u.get('features', [])), bool(u.get('no_default_features')), tuple(u.get('kani_args', [])), tuple(u.get('cbmc_args', [])))
         groups.setdefault(key, []).append(u)
     meta = {'groups': []}
     for key, us in groups.items():
-        pkg, feats, nodef, kargs = key
+        pkg, feats, nodef, kargs, cargs = key
         hs = []
         for u in us:
             for h in u['harness']:
@@ -95,7 +97,8 @@ def run_kani_units(pid, units, tier, log, only_harness=None):
         jobs = min(int(min(u.get('jobs', 12) for u, h in hs)), NCPU)
         logpath = os.path.join(logdir, 'group_%s_%s.log' % (pkg, abs(hash(key)) % 10000))
         log('[kani] %s: %d harness(es), -j %d, timeout %ds' % (pkg, len(names), jobs, tmo))
-        res, text, wall, cmd, cerr = K.run_group(wsdir, pkg, list(feats), nodef, list(kargs), names, jobs, tmo, logpath)
+        res, text, wall, cmd, cerr = K.run_group(wsdir, pkg, list(feats), nodef, list(kargs), names, jobs, tmo, logpath,
+                                                   extra=(['--cbmc-args'] + list(cargs)) if cargs else ())
         meta['groups'].append({'package': pkg, 'cmd': cmd, 'wall_s': round(wall, 1), 'log': os.path.relpath(logpath, ROOT)})
         for (u, h), full in zip(hs, names):
             r = res.get(full)
@@ -150,7 +153,11 @@ def run_kani_units(pid, units, tier, log, only_harness=None):
                                  u.get('kani_args', []), full, int(h.get('timeout_s', u.get('timeout_s', 900))),
                                  os.path.join(logdir, 'playback_%s.log' % h['name']))
         v['playback_tests'] = tests
-        if tests:
+        if tests and h.get('native_replay', True) is False:
+            # the harness chooses values through a stub (e.g. a symbolic std parser): its counterexample is
+            # relative to the stubbed environment and cannot be run natively; recorded, not replayed
+            v['native_replay'] = {'skipped': 'counterexample is relative to stubs: ' + str(h.get('native_replay_note', ''))}
+        elif tests:
             # native replay against the real code
             rws = os.path.join(BUILD, 'k', pid, 'replay_ws')
             K.prepare_ws(REPO, rws)
@@ -258,7 +265,7 @@ def check(pid, tier, only_unit=None, quiet=False, only_harness=None):
             replay['native_replay'] = r.get('native_replay')
             nr = r.get('native_replay') or {}
             found_input = any(v == 'failed' for v in (nr.get('tests') or {}).values())
-            if r.get('playback_tests') and not found_input:
+            if r.get('playback_tests') and not found_input and not nr.get('skipped'):
                 # the counterexample does not reproduce natively (e.g. it relied on a stub): not reported as a violation
                 r['status'] = 'undecided'
                 r['reason'] = 'counterexample did not reproduce on the native run: ' + json.dumps(nr)[:300]
@@ -305,7 +312,9 @@ def match_known(known, r, o):
 # ---------------------------------------------------------------- evidence
 
 def write_evidence(pid, cfg, tier, seed, results, violations, known_hits, undecided, wall, kmeta):
-    os.makedirs(os.path.join(ROOT, 'evidence'), exist_ok=True)
+    # development runs against another tree (CV_REPO) never touch the committed evidence directory
+    evdir = os.path.join(ROOT, 'evidence') if REPO == '/repo' else os.path.join(BUILD, 'evidence_dev')
+    os.makedirs(evdir, exist_ok=True)
     units_out = []
     obligations = discharged = evaluations = nontrivial = 0
     assumptions = []
@@ -394,7 +403,7 @@ def write_evidence(pid, cfg, tier, seed, results, violations, known_hits, undeci
         'property_id': pid, 'tier': tier, 'seed': seed, 'level': level, 'coverage': cov,
         'assumptions': asm, 'wall_s': round(wall, 2), 'violations': len(violations),
     }
-    json.dump(ev, open(os.path.join(ROOT, 'evidence', pid + '.json'), 'w'), indent=1, default=str)
+    json.dump(ev, open(os.path.join(evdir, pid + '.json'), 'w'), indent=1, default=str)
 
 
 def _harness_text(htxt, name):
